@@ -67,6 +67,16 @@ class SimLoop(asyncio.AbstractEventLoop):
             n += 1
             assert n < limit, "run_ready livelock"
 
+    def run_steps(self, k):
+        """run at most k ready handles (fine-grained interleaving control)"""
+        n = 0
+        while self._ready and n < k:
+            h = self._ready.popleft()
+            if not h._cancelled:
+                h._run()
+            n += 1
+        return n
+
     def pending_timers(self):
         self._timers = [t for t in self._timers if not t._cancelled]
         return self._timers
